@@ -32,6 +32,7 @@ func init() {
 			{Name: "forin", Run: runForIn, Solo: true},
 			{Name: "instances", Run: runInstances, Solo: true},
 			{Name: "identical", Run: runIdentical, Solo: true},
+			{Name: "isolation", Run: runIsolation, Solo: true},
 		},
 		Assumptions: []string{
 			"ref/shape is a faithful transcription of ES5.1 section 15 (trusted table)",
@@ -449,6 +450,106 @@ func runInstances(r *engine.Run) {
 				r.Sample(src + " => " + obs)
 			}
 			r.Check(k, src, row.want, obs)
+		}
+	}
+}
+
+// isolation: "every fresh runtime and every copy has the identical shape" must hold whatever
+// other runtimes did before: runtime A deletes / redefines / adds properties on every intrinsic
+// (one victim per owner per round, so that in-place edits of shared tables shift something),
+// then a runtime created afterwards and a copy of a pristine template taken before must still
+// produce the baseline shape dump and pass the table.
+const vandalSrc = `
+(function(global){
+  // capture everything first: the vandal deletes built-ins, including the ones it uses
+  var gopd = Object.getOwnPropertyDescriptor, gopn = Object.getOwnPropertyNames, gpo = Object.getPrototypeOf, dp = Object.defineProperty;
+  var owners = [], nOwners = 0;
+  function visit(o) {
+    if (o === null || (typeof o !== "object" && typeof o !== "function")) return;
+    for (var i = 0; i < nOwners; i++) if (owners[i] === o) return;
+    owners[nOwners++] = o;
+  }
+  visit(global);
+  for (var i = 0; i < nOwners; i++) {
+    var o = owners[i], names = gopn(o);
+    for (var j = 0; j < names.length; j++) {
+      var d = gopd(o, names[j]);
+      if (d && !("get" in d) && !("set" in d)) visit(d.value);
+    }
+    visit(gpo(o));
+  }
+  var n = 0;
+  for (var round = 0; round < ROUNDS; round++) {
+    for (var i = 0; i < nOwners; i++) {
+      var o = owners[i];
+      if (o === global) continue;
+      var names = gopn(o);
+      for (var j = 0; j + 1 < names.length; j++) {
+        var d = gopd(o, names[j]);
+        if (d && d.configurable) { try { if (delete o[names[j]]) { n++; break; } } catch (e) {} }
+      }
+      try { o["__vandal" + round] = round; n++; } catch (e) {}
+      names = gopn(o);
+      for (var j = names.length - 1; j >= 0; j--) {
+        var d = gopd(o, names[j]);
+        if (d && d.configurable && names[j][0] !== "_") {
+          try { dp(o, names[j], {enumerable: true}); n++; } catch (e) {}
+          break;
+        }
+      }
+    }
+  }
+  return n;
+})(this)
+`
+
+func runIsolation(r *engine.Run) {
+	base := otto.New()
+	baseLines, err := walk(base)
+	if err != nil {
+		r.HarnessError("baseline walk failed: " + err.Error())
+		return
+	}
+	sort.Strings(baseLines)
+	baseline := strings.Join(baseLines, "\n")
+	template := otto.New()
+	for _, rounds := range []int{1, 2, 3} {
+		victim := otto.New()
+		if rounds == 3 {
+			victim = template.Copy() // vandalise a copy: the template and later copies must not notice
+		}
+		res := ox.Run(victim, strings.Replace(vandalSrc, "ROUNDS", fmt.Sprint(rounds), 1))
+		if res.Panicked || res.Err != nil {
+			r.Mismatch(engine.Mismatch{Key: fmt.Sprintf("vandal/%d", rounds), Input: "vandal script", Expected: "runs", Observed: fmt.Sprint(res.Err, res.PanicVal)})
+			continue
+		}
+		edits, _ := res.Value.ToInteger()
+		subjects := map[string]*otto.Otto{"fresh-after": otto.New(), "copy-of-pristine-template": template.Copy(), "template-itself": template}
+		names := []string{"fresh-after", "copy-of-pristine-template", "template-itself"}
+		for _, name := range names {
+			k := fmt.Sprintf("isolation/%d/%s", rounds, name)
+			if !r.MineKey(k) {
+				continue
+			}
+			lines, err := walk(subjects[name])
+			obs := ""
+			if err != nil {
+				obs = "walk failed: " + err.Error()
+			} else {
+				sort.Strings(lines)
+				if d := strings.Join(lines, "\n"); d != baseline {
+					obs = firstDiff(baseline, d)
+					if obs == "" {
+						obs = "dump differs (duplicate lines)"
+					}
+				}
+			}
+			r.Eval(true)
+			r.Outcome(fmt.Sprint(rounds, name, obs == ""))
+			if r.WantSample() {
+				r.Sample(fmt.Sprintf("%d edits on every intrinsic of another runtime, then shape dump of %s", edits, name))
+			}
+			r.Check(k, fmt.Sprintf("runtime A applied %d deletes/adds/redefinitions to its intrinsics; shape dump of %s", edits, name), "", obs)
 		}
 	}
 }
